@@ -59,13 +59,16 @@ package main
 //@   requires f != nil && astOK(f)
 //@   requires wfProgs(r.patches)
 //@   requires forall i int {r.errors[i]} :: 0 <= i && i < len(r.errors) ==> r.errors[i] != nil
+//@   at call astdiff.Before set snapCurrent = result0
+//@   at call (*astdiff.Snapshot).Diff assert [C12,C17] every-change-is-compared-with-the-tree-its-predecessor-left: arg0 == snapCurrent
+//@   at call (*astdiff.Snapshot).Diff set snapCurrent = result0
 //@   at call engine.NewChangelog set lastChangelog = result0
 //@   at call engine.NewChangelog set changelogsMade = changelogsMade + 1
 //@   at call (*engine.Change).Replace assert [C17] every-change-records-into-a-changelog-of-its-own: arg2 == lastChangelog && changelogsMade - old(changelogsMade) == changelogsUsed - old(changelogsUsed) + 1
 //@   at call (*engine.Change).Replace set changelogsUsed = changelogsUsed + 1
 //@   at call (*astdiff.Snapshot).Diff assert [C17] the-snapshot-is-advanced-with-the-regions-of-this-change: unbox(arg2, "S_engine_Changelog") == lastChangelog
 //@   at call main.cleanupFilePos assert [C17] only-the-regions-of-this-change-are-cleaned-up: arg1 == lastChangelog
-//@   assigns r.errors, elems(r.errors), group(ast), matchCount, replFail, sitesReplaced, restructured, inspections, importFailures, importsDeleted, lastChangelog, changelogsMade, changelogsUsed, allof("F.S_astdiff_value.Comments")
+//@   assigns r.errors, elems(r.errors), group(ast), matchCount, replFail, sitesReplaced, restructured, inspections, importFailures, importsDeleted, lastChangelog, changelogsMade, changelogsUsed, snapCurrent, allof("F.S_astdiff_value.Comments")
 //@   ensures [C16] recorded-errors-are-errors: forall i int {r.errors[i]} :: 0 <= i && i < len(r.errors) ==> r.errors[i] != nil
 //@   ensures [C06,C08,C09] matched-has-file: matched ==> fout != nil
 //@   ensures [C06] matched-only-after-match: matched ==> matchCount > old(matchCount)
@@ -74,6 +77,7 @@ package main
 //@   ensures errors-array-same-or-fresh: r.errors.arr == old(r.errors.arr) || fresh(r.errors.arr)
 //@   loop 0
 //@     invariant snap != nil && snap.value != nil && wfV(snap.value)
+//@     invariant [C12,C17] snap == snapCurrent
 //@     invariant [C17] changelogsMade - old(changelogsMade) == changelogsUsed - old(changelogsUsed)
 //@     invariant r.errors.arr == old(r.errors.arr) || fresh(r.errors.arr)
 //@     invariant forall i int {r.errors[i]} :: 0 <= i && i < len(r.errors) ==> r.errors[i] != nil
@@ -86,6 +90,7 @@ package main
 //@     invariant len(r.errors) >= old(len(r.errors))
 //@   loop 1
 //@     invariant snap != nil && snap.value != nil && wfV(snap.value)
+//@     invariant [C12,C17] snap == snapCurrent
 //@     invariant [C17] changelogsMade - old(changelogsMade) == changelogsUsed - old(changelogsUsed)
 //@     invariant r.errors.arr == old(r.errors.arr) || fresh(r.errors.arr)
 //@     invariant forall i int {r.errors[i]} :: 0 <= i && i < len(r.errors) ==> r.errors[i] != nil
